@@ -37,31 +37,54 @@ Theorem C07_request_with_body_sent_at_most_once_per_reforward : forall c r evs,
 Proof. exact no_resend_with_body. Qed.
 Print Assumptions C07_request_with_body_sent_at_most_once_per_reforward.
 
-(* The property for connection failures (partial: see the refutation below): along every event sequence in which no
-   reply header with a re-forwardable status (502, 504; with retry_on_error also 403, 500, 501, 503) is received, a
-   request that checkRetriable() rejects -- method neither safe nor idempotent, or a body present -- is written on a
-   connection AT MOST ONCE: no failure of any kind, on fresh or reused connections, on any path, makes squid send it again. *)
-Theorem C07_no_resend_after_connection_failure_partial : forall c r evs,
-  check_retriable r = false -> Forall (no_reforwardable_header c) evs ->
+(* THE PROPERTY. `failure_sequence c evs`: no COMPLETE re-forwardable reply arrived -- every reply either lost its
+   connection before its end (no `EvComplete false` event) or had a status squid does not re-forward (not 502/504,
+   nor 403/500/501/503 under retry_on_error). Along every such event sequence -- any failures of any kind, on fresh or
+   reused connections, on any number of paths, the pconn race included -- a request that checkRetriable() rejects
+   (method neither safe nor idempotent, or a body present) is written on a connection AT MOST ONCE.
+   What stays outside is stated, not hidden: a completely received 502/504 reply is not a connection failure, and
+   squid re-forwards it whatever the method (C07_complete_reforwardable_reply_is_reforwarded below). *)
+Theorem C07_no_resend_after_connection_failure : forall c r evs,
+  check_retriable r = false -> failure_sequence c evs ->
   sends (snd (run c r init evs)) <= 1.
-Proof. exact at_most_one_send. Qed.
-Print Assumptions C07_no_resend_after_connection_failure_partial.
+Proof. exact sent_at_most_once_under_failures. Qed.
+Print Assumptions C07_no_resend_after_connection_failure.
+
+(* the sharpened bound: for such a request every reforward() decision needs a COMPLETELY received reply (after an
+   attempt that failed, reforward() never says yes), so sends <= 1 + number of completely received replies *)
+Theorem C07_sends_bounded_by_complete_replies : forall c r evs,
+  check_retriable r = false ->
+  sends (snd (run c r init evs)) <= 1 + complete_replies evs.
+Proof. exact sends_bounded_by_complete_replies. Qed.
+Print Assumptions C07_sends_bounded_by_complete_replies.
+
+Theorem C07_reforward_needs_complete_reply : forall c r evs s,
+  check_retriable r = false -> reforwards (snd (run c r s evs)) <= complete_replies evs.
+Proof. exact reforwards_bounded. Qed.
+Print Assumptions C07_reforward_needs_complete_reply.
 
 Theorem C07_nonidempotent_method_is_not_retriable : forall r,
   method_safe (r_method r) = false -> method_idem (r_method r) = false -> check_retriable r = false.
 Proof. exact nonidempotent_not_retriable. Qed.
 Print Assumptions C07_nonidempotent_method_is_not_retriable.
 
-(* The full statement -- "sent at most once whenever the connection fails after squid began sending" -- is FALSE for the
-   code as it is: a body-less POST whose first attempt receives a 502 header and then loses the connection in the body
-   (no reply is ever received completely) is written again on the next path. *)
-Theorem C07_resend_after_truncated_reply_refuted :
-  exists c r evs,
-    r_method r = rm_METHOD_POST /\ check_retriable r = false /\
-    Forall (fun e => e <> EvComplete false) evs /\
-    sends (snd (run c r init evs)) = 2.
-Proof. exact resend_after_truncated_reply_witness. Qed.
-Print Assumptions C07_resend_after_truncated_reply_refuted.
+(* a 502 header whose body is cut by a connection close: the body-less POST is sent once (this was the finding
+   C07-reforward-after-truncated-5xx, repaired in /repo by `err && !checkRetriable()` in reforward()), a GET goes on *)
+Theorem C07_truncated_reply_not_reforwarded_for_post :
+  check_retriable req_post_nobody = false /\
+  Forall (fun e => e <> EvComplete false) truncated_5xx_evs /\
+  snd (run cfg_default req_post_nobody init truncated_5xx_evs) = [OSend 0 false] /\
+  snd (run cfg_default req_get init truncated_5xx_evs) = [OSend 0 false; OReforward; OSend 1 false].
+Proof. exact truncated_reply_examples. Qed.
+Print Assumptions C07_truncated_reply_not_reforwarded_for_post.
+
+(* outside the property (not a connection failure): a COMPLETE 502 reply is re-forwarded even for a body-less POST *)
+Theorem C07_complete_reforwardable_reply_is_reforwarded :
+  snd (run cfg_default req_post_nobody init
+         [EvNewDest; EvNewDest; EvDestsEnd; EvConn false true false; EvHeaders 502; EvComplete false;
+          EvConn false true false; EvHeaders 200; EvComplete false]) = [OSend 0 false; OReforward; OSend 1 false].
+Proof. exact complete_5xx_is_reforwarded. Qed.
+Print Assumptions C07_complete_reforwardable_reply_is_reforwarded.
 
 (* once request body bytes were consumed (bodyNibbled), nothing that happens later makes squid send the request
    again -- not even a re-forwardable reply *)
@@ -109,13 +132,14 @@ Theorem C07_pconn_race_retry_only_for_retriable :
 Proof. exact pconn_race_examples. Qed.
 Print Assumptions C07_pconn_race_retry_only_for_retriable.
 
-Example C07_partial_hypotheses_satisfiable :
+Example C07_failure_sequence_satisfiable :
   check_retriable req_post_nobody = false /\
-  Forall (no_reforwardable_header cfg_default)
-    [EvNewDest; EvNewDest; EvDestsEnd; EvConn false true false; EvFail FZero; EvConn false true false] /\
-  sends (snd (run cfg_default req_post_nobody init
-    [EvNewDest; EvNewDest; EvDestsEnd; EvConn false true false; EvFail FZero; EvConn false true false])) = 1.
-Proof. split; [vm_compute; reflexivity|]. split; [repeat constructor | vm_compute; reflexivity]. Qed.
+  failure_sequence cfg_default truncated_5xx_evs /\
+  sends (snd (run cfg_default req_post_nobody init truncated_5xx_evs)) = 1.
+Proof.
+  split; [vm_compute; reflexivity|]. split; [|vm_compute; reflexivity].
+  left. unfold truncated_5xx_evs. repeat constructor; discriminate.
+Qed.
 
 Example C07_body_consumed_reachable :
   s_nibbled (fst (run cfg_default req_post_body init
